@@ -185,6 +185,24 @@ def run_check(args):
                 best = cand
         violations.append(best)
 
+    # --- thorough tier: back-end agreement and mutation self-test ---------------------------------------------
+    cross = dict(agree=0, unknown=0, not_exported=0, disagree=[])
+    for r in results:
+        for inst in r["instances"]:
+            cc = inst.get("cvc5_cross")
+            if cc == "agree":
+                cross["agree"] += 1
+            elif cc == "unknown":
+                cross["unknown"] += 1
+            elif cc == "not-exported":
+                cross["not_exported"] += 1
+            elif cc == "DISAGREE":
+                cross["disagree"].append(f"{r['contract']}::{inst['oid']} path {inst.get('path')}")
+    mutation = None
+    if tier == "thorough" and not args.only:
+        mutation = run_mutation_sample(prop, seed)
+    EXTRA["cvc5_cross_check"] = cross
+    EXTRA["mutation_selftest"] = mutation
     # --- bounded stand-ins (never counted as proved) ----------------------------------------------------
     bounded = run_bounded(prop, tier, seed)
     lines = []
@@ -239,7 +257,9 @@ def run_check(args):
     for k in missing[:20]:
         print(f"UNDECIDED property={prop} obligation {k} (in obligations.lock.json) is no longer generated")
 
-    if crashes or vacuous:
+    for d_ in cross["disagree"]:
+        print(f"CHECKER-ERROR property={prop} z3 discharged {d_} but cvc5 finds the negation satisfiable (back ends disagree)")
+    if crashes or vacuous or cross["disagree"]:
         rc = 3
     elif n_viol:
         rc = 1
@@ -257,6 +277,25 @@ def run_check(args):
             json.dump(lock_all, f, indent=0, sort_keys=True)
     print(f"pyvc: property={prop} tier={tier} contracts={len(seen)} obligations={n_obl} discharged={n_dis} violations={n_viol} undecided={len(undecided) + len(unknown_obl) + n_undecided_fail + len(missing)} wall={time.time() - t0:.1f}s exit={rc}")
     return rc
+
+
+EXTRA = {}
+
+
+def run_mutation_sample(prop, seed, k=12):
+    """mutation self-test of the proof part: k small semantic edits of the functions under contract,
+    applied in memory; reported in evidence (informational: a survivor is an equivalent mutant or a
+    contract too weak to notice, never a verdict on the tree)"""
+    import subprocess
+
+    env = dict(os.environ, PYTHONPATH=HERE, PYVC_TIER="quick")
+    try:
+        r = subprocess.run([sys.executable, "-W", "ignore", "-m", "pyvc.mutate", prop, "--sample", str(k), "--seed", str(seed)], capture_output=True, text=True, cwd=HERE, env=env, timeout=3000)
+        txt = r.stdout[r.stdout.index("{") :]
+        d = json.loads(txt)
+        return dict(total_mutants=d["total"], sampled=d["sampled"], killed=d["killed"], survived=[f"{x.get('ref')} line {x.get('line')}: {x.get('desc')}" for x in d["survived"]], undecided=[f"{x.get('ref')} line {x.get('line')}: {x.get('desc')} ({x.get('verdict')})" for x in d["undecided"]])
+    except Exception as e:  # pylint: disable=broad-except
+        return dict(error=f"{type(e).__name__}: {e}")
 
 
 def run_bounded(prop, tier, seed):
@@ -345,6 +384,8 @@ def write_evidence(prop, tier, seed, roots, seen, results, obl, n_obl, n_dis, vi
             undecided=[f"{u['contract']}: {u['reason']}" for u in undecided][:50] + [f"unknown: {k}" for k in unknown_obl] + [f"missing: {k}" for k in missing],
             identity_comparisons=idflags,
             py_slice_bounds_selftest_cases=n_slice_cases,
+            cvc5_cross_check=EXTRA.get("cvc5_cross_check"),
+            mutation_selftest=EXTRA.get("mutation_selftest"),
             exit_code=rc,
             instrumented_loops=shadow.INSTRUMENTED_LOOPS,
             bounded_checks=[dict(contract=b["contract"], bound=b["bound"], cases=b["cases"], passed=not b["failed"], known_finding_hits=b.get("known_hits", {}), wall_s=b["wall"], label="BOUNDED stand-in: native evaluation of the contract on an enumerated input set; not a proof, not counted in obligations/discharged") for b in bounded],
